@@ -2,10 +2,12 @@ import Std.Data.HashMap
 import Driver.Proto
 import Driver.Loop
 import Driver.C01
+import Driver.C01E
 import Driver.C01N
 import Driver.C02
 import Driver.C03
 import Driver.C04
+import Driver.C04B
 import Driver.C05
 import Driver.C05B
 import Driver.C06
@@ -29,10 +31,12 @@ open Verif Verif.Driver
 
 def allHandlers : List (String × Handler) :=
   C01.handlers ++
+  C01E.handlers ++
   C01N.handlers ++
   C02.handlers ++
   C03.handlers ++
   C04.handlers ++
+  C04B.handlers ++
   C05.handlers ++
   C05B.handlers ++
   C06.handlers ++
